@@ -127,3 +127,15 @@ def explore_many(tasks, cap_per_subtree=0):
 
 def explore(execute, check, bound, cap_per_subtree=0):
     return explore_many([(execute, check, bound)], cap_per_subtree)[0]
+
+
+def replay_choices(execute, choices):
+    """Re-run one recorded schedule.  `choices` are the bare choice indexes a violation was reported with; the
+    (choice, number-enabled) prefix the Chooser wants is rebuilt by iterative replay (a divergence is a hard error)."""
+    prefix = []
+    while True:
+        obs, ch = execute(prefix)
+        if len(prefix) >= len(choices) or len(ch.choices) <= len(prefix):
+            return obs, ch
+        i = len(prefix)
+        prefix = ch.choices[:i] + [(choices[i], ch.choices[i][1])]
